@@ -180,7 +180,8 @@ func acl17Case(w *vlog.W, a *wargs, id int, rng *rand.Rand, opts harness.Options
 		admins[harness.AdminKey(i).Addr.String()] = true
 	}
 	roles := map[string]*harness.Key{"outsider": harness.User(3), "other-chain-admin": harness.ChainAdmin("chainU"), "gov-admin": harness.AdminKey(1),
-		"case-twin-chain-admin": harness.ChainAdmin(aclTwinChain), "frozen-gov-admin": harness.DetKey("acl-frozen-admin"), "frozen-gov-admin-with-pending-logout": harness.DetKey("acl-logouting-admin")}
+		"case-twin-chain-admin": harness.ChainAdmin(aclTwinChain), "frozen-gov-admin": harness.DetKey("acl-frozen-admin"), "frozen-gov-admin-with-pending-logout": harness.DetKey("acl-logouting-admin"),
+		"earlier-chain-admin": harness.ChainAdmin(harness.ChainA)}
 	everyoneElse := []string{"outsider", "other-chain-admin", "case-twin-chain-admin", "frozen-gov-admin", "frozen-gov-admin-with-pending-logout"}
 	victimA, victimB := harness.FullID(harness.ChainA, "s1"), harness.FullID(harness.ChainB, "s1")
 	victimState := func() string {
@@ -222,7 +223,8 @@ func acl17Case(w *vlog.W, a *wargs, id int, rng *rand.Rand, opts harness.Options
 			continue
 		}
 		// aimed calls: arguments taken from the victim's registered record, where a generic pool never lands
-		if aim := rng.Intn(14); aim < 4 {
+		if aim := rng.Intn(15); aim < 5 {
+			aim4Done := false
 			for _, cm := range classified {
 				switch {
 				case aim == 0 && cm.CName == "ServiceManager" && cm.Name == "UpdateService":
@@ -252,6 +254,21 @@ func acl17Case(w *vlog.W, a *wargs, id int, rng *rand.Rand, opts harness.Options
 					child := harness.FullID(harness.ChainC, "s1") + "-" + []string{harness.FullID(harness.ChainA, "s2"), harness.FullID(harness.ChainB, "s2")}[rng.Intn(2)] + "-1"
 					argv = []*pb.Arg{pb.String(child), pb.Int32(int32(1 + rng.Intn(3)))}
 					w.Count("aimed_calls:report-on-a-child-of-an-open-group", 1)
+				case aim == 4 && cm.CName == "ServiceManager" && (cm.Name == "UpdateService" || cm.Name == "LogoutService" || cm.Name == "RegisterService") && !aim4Done:
+					// the admin of an appchain that was registered earlier acts on a chain registered after it
+					aim4Done = true
+					m, cls = cm, model.AclClass(cm.CName, cm.Name)
+					roleName = "earlier-chain-admin"
+					victim := []string{harness.ChainB, harness.ChainC, "chainW"}[rng.Intn(3)]
+					switch cm.Name {
+					case "UpdateService":
+						argv = []*pb.Arg{pb.String(victim + ":s1"), pb.String("svc-" + victim + "-s1"), pb.String(fmt.Sprintf("intro-%d", rng.Intn(1000))), pb.String(""), pb.String("details"), pb.String("reason")}
+					case "LogoutService":
+						argv = []*pb.Arg{pb.String(victim + ":s1"), pb.String("reason")}
+					default:
+						argv = []*pb.Arg{pb.String(victim), pb.String(fmt.Sprintf("s9%d", rng.Intn(9))), pb.String(fmt.Sprintf("name-%d", rng.Intn(1e6))), pb.String("CallContract"), pb.String("intro"), pb.Uint64(1), pb.String(""), pb.String("details"), pb.String("reason")}
+					}
+					w.Count("aimed_calls:admin-of-an-earlier-chain-on-a-later-chain", 1)
 				}
 			}
 			k = roles[roleName]
